@@ -18,6 +18,7 @@ mod val;
 mod p_clvm;
 mod corpus;
 mod p_history;
+mod p_scoping;
 mod p_cldb;
 mod p_reader;
 mod p_repl;
@@ -60,6 +61,7 @@ fn main() {
         "replay-clvm" => p_clvm::replay(&rest),
         "drive-clvm" => p_clvm::drive(&rest),
         "drive-compile" => p_compile::drive(&rest),
+        "drive-scoping" => p_scoping::drive(&rest),
         "drive-cldb" => p_cldb::drive(&rest),
         "replay-cldb" => p_cldb::replay(&rest),
         "drive-reader" => p_reader::drive(&rest),
